@@ -19,6 +19,7 @@ type NodeCfg struct {
 	DetMaps   bool   `json:"detmaps,omitempty"`   // map forests: inject deterministic seed-permuted maps
 	Relay     string `json:"relay,omitempty"`     // "", "reenc" (re-encoded proofs, C05), "rebatch" (split blocks, C01)
 	FromRoots int    `json:"fromroots,omitempty"` // partial: bootstrap with NewMapPollardFromRoots at this height (0 = fresh)
+	FullRoots bool   `json:"fullroots,omitempty"` // with fromroots: created with full=true (remembers every later addition, never prunes); the C09 storage oracle does not apply
 	NoUndo    bool   `json:"noundo,omitempty"`    // node rebuilds instead of undoing (keeps provenance clean)
 	Big       uint64 `json:"big,omitempty"`       // stump / light: the simulated forest is embedded at this slot offset of a huge accumulator (big.go)
 }
